@@ -17,7 +17,9 @@ open Cell2v.Events
 
 /-- One iteration of a dispatch loop (publication `p` of name `e` on centre `c` with published args `a`):
 (1) if it invokes a listener, that listener was not invoked before for `p`, is subscribed *right now* to
-exactly (c, e), and receives its bound arguments followed by the published ones;
+exactly (c, e), and receives its bound arguments followed by the published ones; on a local centre it
+was already subscribed when the delivery started (a listener subscribed during the publication is not
+called for it; the light centre ranges over the live map and may or may not call it);
 (2) if the loop ends while the centre is running, every listener that was subscribed when the delivery
 started (`snap`) and still is has been invoked.  Together with `publish_at_most_once`: each listener
 subscribed over the whole delivery is invoked exactly once. -/
@@ -25,7 +27,8 @@ theorem publish_calls_current_once {w : World} (h : Reach w) {p c e : Nat} {a sn
     (hst : w.stack = .disp p c e a snap called :: rest) (hb : w.blocked = none) :
     (∀ p' c' e' id args a', (step w).out = .inv p' c' e' id args a' :: w.out →
         p' = p ∧ c' = c ∧ e' = e ∧ a' = a ∧ id ∉ called ∧
-        ∃ l ∈ w.subs, l.c = c ∧ l.e = e ∧ l.id = id ∧ args = l.bound ++ a) ∧
+        (∃ l ∈ w.subs, l.c = c ∧ l.e = e ∧ l.id = id ∧ args = l.bound ++ a) ∧
+        (∀ ct, w.cs[c]? = some ct → ct.light = false → id ∈ snap)) ∧
     ((step w).stack = rest → ∀ ct, w.cs[c]? = some ct → ct.running = true →
         ∀ l ∈ w.subs, l.c = c → l.e = e → l.id ∈ snap → l.id ∈ called) := by
   have hc := (reach_fix h).cfg
@@ -60,16 +63,30 @@ theorem publish_calls_current_once {w : World} (h : Reach w) {p c e : Nat} {a sn
         · intro p' c' e' id args a' ho
           simp only [List.cons.injEq, Tok.inv.injEq, and_true] at ho
           obtain ⟨rfl, rfl, rfl, rfl, rfl, rfl⟩ := ho
-          have hl : l ∈ lisOf w c e ∧ l.id ∉ called := by
+          have hl : l ∈ lisOf w c e ∧ l.id ∉ called ∧ (ct.light = false → l.id ∈ snap) := by
             rcases pick_mem hp with hm | hm
-            · exact ⟨(mustOf_mem hr hm).1, (mustOf_mem hr hm).2.2⟩
-            · exact ⟨(mayOf_mem hm).1, (mayOf_mem hm).2.2.1⟩
+            · exact ⟨(mustOf_mem hr hm).1, (mustOf_mem hr hm).2.2, fun _ => (mustOf_mem hr hm).2.1⟩
+            · exact ⟨(mayOf_mem hm).1, (mayOf_mem hm).2.2.1, fun hlt => by simp [(mayOf_mem hm).2.2.2] at hlt⟩
           obtain ⟨hl1, hl2, hl3⟩ := lisOf_mem.mp hl.1
-          exact ⟨rfl, rfl, rfl, rfl, hl.2, l, hl1, hl2, hl3, rfl, rfl⟩
+          refine ⟨rfl, rfl, rfl, rfl, hl.2.1, ⟨l, hl1, hl2, hl3, rfl, rfl⟩, ?_⟩
+          intro ct' hct hlt
+          rw [hsome] at hct; injection hct with hct; subst hct
+          exact hl.2.2 hlt
         · intro hs
           have := congrArg List.length hs
           simp at this
           omega
+
+/-- Trace form of clause (2): when a dispatch loop ends while its centre is running, the trace holds an
+invocation, for this publication, of every listener that was subscribed when the delivery started and still
+is — with `publish_at_most_once`, exactly one. -/
+theorem publish_reaches_every_current_listener {w : World} (h : Reach w) {p c e : Nat} {a snap called : List Nat}
+    {rest : List Frame} (hst : w.stack = .disp p c e a snap called :: rest) (hb : w.blocked = none)
+    (hend : (step w).stack = rest) (ct : CAttr) (hct : w.cs[c]? = some ct) (hrun : ct.running = true)
+    (l : Sub) (hl : l ∈ w.subs) (hlc : l.c = c) (hle : l.e = e) (hsnap : l.id ∈ snap) :
+    ∃ args, Tok.inv p c e l.id args a ∈ w.out := by
+  have hcalled := (publish_calls_current_once h hst hb).2 hend ct hct hrun l hl hlc hle hsnap
+  exact (reach_fr h).called_inv p c e a snap called (by simp [disps, hst, List.filter_cons, isDisp]) l.id hcalled
 
 /-- No listener is invoked twice for one publication (publication numbers are unique per delivery). -/
 theorem publish_at_most_once {w : World} (h : Reach w) (post pre : List Tok) (p c e id : Nat) (args a : List Nat)
@@ -178,6 +195,14 @@ theorem drain_delivers_head (w : World) (rest : List Frame) (c n : Nat) (ct : CA
     (q : List (Nat × List Nat)) (hc : w.cs[c]? = some ct) (hq : ct.queue = (e, a) :: q) :
     stepDrain w rest c (n + 1) = openDisp { w with cs := setQueue w.cs c q, stack := .drain c n :: rest } ct c e a := by
   simp [stepDrain, hc, hq]
+
+/-- Whatever waits in a centre's event queue was put there by a local `Publish` on that (useChan) centre or
+by a global publication that reached the centre — the owner never delivers an event nobody published — and
+the queue never holds more than 999 events. -/
+theorem queued_events_were_published {w : World} (h : Reach w) (c : Nat) (ct : CAttr) (hc : w.cs[c]? = some ct) :
+    (∀ e a, (e, a) ∈ ct.queue → Tok.pubq c e a ∈ w.out ∨ ∃ grew, Tok.gpub e a grew ∈ w.out ∧ c ∈ grew) ∧
+    ct.queue.length ≤ queueCap :=
+  ⟨fun e a hm => (reach_q h).prov c ct e a hc hm, (reach_q h).cap c ct hc⟩
 
 /-! ### re-entrancy -/
 
